@@ -14,10 +14,16 @@ LEVEL_TEXT = ("Theorems in Coq, for every trace with no bound on length, servers
               "code is sent after a majority of ensemble+removed answered NewTerm in that term, to a member of the ensemble being installed whose "
               "head is maximal among the responders of that ensemble. The two defects of the shipped code (O-7 grace-loop filter, O-11 "
               "non-atomic file Store) are refuted in Coq on the old variants, were reproduced on the real code and are fixed in /repo. "
+              "The three term theorems are also proved over traces that contain Coordinator.ConfigChanged's compare-and-set on the cluster "
+              "status (load, swap refused on a version conflict, recomputed from the fresh status) interleaved anywhere with the election; "
+              "the variant whose retry writes the stale status is refuted. "
               "The model is tied to the Go code on every run: election scripts (response order/failure/lateness, 3-5 members, 0-2 removed "
               "nodes, retries, kill points between every Store/RPC, restart from the stored metadata, memory and file providers) are played "
               "against the real controller and the Store/RPC trace is compared with the model's; node request sequences with restarts and "
-              "crash images are compared likewise; the C05 predicates are also evaluated directly on what the implementation did.")
+              "crash images are compared likewise; a real coordinator (coordinator.NewCoordinator) is run with ConfigChanged parked between its "
+              "LoadWithVersion and its Swap while an election retry stores and sends the next term, then killed and restarted from the stored "
+              "status; the C05 predicates (incl. 'the stored term of a shard never decreases' on the sequence of Store payloads) are also "
+              "evaluated directly on what the implementation did.")
 LEVEL_NOTE = ("Trusted: Coq kernel, extraction (ExtrOcamlBasic), the Go harnesses and their canonicalisation. Assumed, not proved: Store "
               "eventually succeeds before the controller continues (status_resource swallows the error after ~15 min of retries); the shard's "
               "namespace exists in the status (UpdateShardMetadata returns silently otherwise); ensemble and removed nodes are duplicate-free "
@@ -25,17 +31,22 @@ LEVEL_NOTE = ("Trusted: Coq kernel, extraction (ExtrOcamlBasic), the Go harnesse
               "durability is exercised with crash images that keep everything written to files (no StrictMem: the kv FS hook belongs to C07), "
               "not with lost unsynced writes. Not modelled: the configmap provider (atomic by the API server's resourceVersion CAS), gRPC, "
               "goroutine scheduling inside newTermQuorum other than the order in which answers reach its channel (forced by the harness), "
-              "real timer jitter (the 100 ms grace timer is a const; scripts keep answers clear of it). Liveness is not claimed "
+              "real timer jitter (the 100 ms grace timer is a const; scripts keep answers clear of it). Of Coordinator.ConfigChanged only the "
+              "compare-and-set on the status is modelled (ApplyClusterChanges copies existing shard entries: read off the code, exercised by the "
+              "cfgrace cases, not proved); node/shard addition and removal, the balancer and swapNode's catch-up wait are not. Liveness is not claimed "
               "(e.g. selectNewLeader panics on an empty response map, reachable only when removed nodes alone form the majority).")
 TRUSTED = ["modelled not verified: gRPC transport, Pebble flush (exercised through crash images of the data directory), rename(2)/fsync(2)",
-           "response order into newTermQuorum's channel is forced through pprof goroutine labels (falls back to 8 ms spacing if labels disappear)"]
+           "response order into newTermQuorum's channel is forced through pprof goroutine labels (falls back to 8 ms spacing if labels disappear)",
+           "ConfigChanged is parked inside ApplyClusterChanges through the slog.Error report of an unplaceable namespace (harness slog handler); "
+           "if that report disappears the cfgrace cases are not evaluated (counted), never an alarm"]
 ASSUMES = ["store_atomic: the metadata provider's Store is all-or-nothing (memory, configmap; file provider after the O-11 fix)",
            "store_succeeds_before_continue; namespace of the shard present in the cluster status",
            "NoDup(ensemble ++ removed) initially and well-formed swaps (wf_run), for the majority/max-head theorem"]
 RULE = ("sel: response maps of 0..7 servers with ties, stale-term-longer-log, empty logs; distinct by content, non-trivial = >=2 responses; "
         "elect: scripts (provider, ensemble 3-5, removed 0-2, heads, per-round arrival order with ok/err and timer position, BecomeLeader outcome, "
         "refence outcomes, 1-3 incarnations with kill points s1pre/s1post/nt0-3/blpre/blpost/s2pre/s2post/end), distinct by script; "
-        "fstore: file Store interrupted after k bytes; node: request sequences (NewTerm/BecomeLeader/Truncate with lower/equal/higher terms, "
+        "fstore: file Store interrupted after k bytes; cfgrace: real coordinator, ConfigChanged overlapping an election retry up to a pending "
+        "BecomeLeader (bl) or a completed election (full), kill, restart; distinct by (mode, initial term); node: request sequences (NewTerm/BecomeLeader/Truncate with lower/equal/higher terms, "
         "clean restarts, crash images), distinct by sequence")
 
 
